@@ -18,7 +18,7 @@ def run(ctx):
                 'connectivity; clip geometries (boxes, triangles, lines, points, touching, covering) x buffers 0-2; masks applied '
                 'directly or saved, reloaded and applied to a second dataset with the same geometry and other data. one case = one '
                 'variable of one clip; non-trivial = the clip drops at least one cell; distinct by content')
-    fl, tmp = cc.flows(ctx, 35 if quick else 140, quick)
+    fl, tmp = cc.flows(ctx, 40 if quick else 140, quick)
     exprs, plans = [], []
     try:
         for f in fl:
@@ -87,11 +87,30 @@ def run(ctx):
                         if k not in got.attrs or not numpy.array_equal(got.attrs[k], v):
                             ctx.report('property', f'{name}: attribute {k} not passed through', vcase)
                             break
+                # a mask over dimensions the dataset does not have selects nothing of it: it is refused, the data are never
+                # handed back whole as if they had been clipped
+                if dropped and f.history == 'direct' and f.buffer == 0:
+                    import tempfile
+                    from emsarray import masking
+                    work3 = tempfile.mkdtemp(prefix='clip_other_dims_', dir=tmp)
+                    gdims_ = sorted({str(x) for v_ in f.mask.data_vars for x in f.mask[v_].dims})
+                    other = f.mask.rename({g_: f'other_{g_}' for g_ in gdims_})
+                    with warnings.catch_warnings():
+                        warnings.simplefilter('ignore')
+                        r3 = attempt(lambda: masking.mask_grid_dataset(target, other, work3).load())
+                    ctx.count('mask over other dimensions')
+                    if r3[0] == 'ok':
+                        floats = [str(nm) for nm in target.data_vars if target[nm].dtype.kind == 'f'
+                                  and set(map(str, f.d.spec['kinds']['face'])) <= set(map(str, target[nm].dims))]
+                        if floats and floats[0] in r3[1].variables and r3[1][floats[0]].shape == target[floats[0]].shape and cc.same_values(
+                                r3[1][floats[0]].values, target[floats[0]].values):
+                            ctx.report('property', f'a clip mask over the dimensions {["other_" + g_ for g_ in gdims_]}, none of which the dataset '
+                                       f'has, was applied without an error and every value of {floats[0]} outside the region survives', case)
             else:
                 topo = target.ems.topology
                 dims = {'face': topo.face_dimension, 'node': topo.node_dimension}
                 tabs = {'face': cc.tab_of(f.mask, 'new_face_index'), 'node': cc.tab_of(f.mask, 'new_node_index')}
-                if topo.has_edge_dimension and 'new_edge_index' in f.mask:
+                if f.d.spec['has_edge_dim'] and 'new_edge_index' in f.mask:
                     dims['edge'] = topo.edge_dimension
                     tabs['edge'] = cc.tab_of(f.mask, 'new_edge_index')
                 keep = {k: [i for i, x in enumerate(t) if x is not None] for k, t in tabs.items()}
